@@ -17,7 +17,7 @@ RULE = (
     "case = one multiset of forest rule keys (2-15 rules over <= 8 labels, arity 0-3 with "
     "repeated children, shifts in -3..3, random or hostile shape) inserted into the real "
     "TableMethod in several orders (all distinct permutations when <= 5 rules); after every "
-    "insertion the reported function is compared with the independent least fixed point. The "
+    "insertion the reported function is compared with the independent least fixed point. Case kind forestdb = an integer universe as real rule objects (reversible rows, verification rows) inserted into RuleDBForest(reverse=True) in seven orders; is_verified for every label and has_specification must agree between the orders, and the verified set only grows. The "
     "thorough tier adds a small-scope exhaustive layer: every multiset of 1-3 rules over two labels "
     "(arity <= 2, shifts -1..1), every pair of rules over three labels, every pair over two labels "
     "with shifts -2..2, all distinct insertion orders each (about 175 000 multisets). "
